@@ -83,6 +83,25 @@ func (s *esSub) snapshot() []esEvent {
 	return append([]esEvent(nil), s.got...)
 }
 
+// recRemoter is an actor.Remoter that records what the engine hands it: subscribers on other
+// nodes are PIDs with a foreign address, the event stream forwards to them through the remote.
+type recRemoter struct {
+	addr string
+	mu   sync.Mutex
+	got  map[[2]string][]esEvent
+}
+
+func (r *recRemoter) Address() string           { return r.addr }
+func (r *recRemoter) Start(*actor.Engine) error { return nil }
+func (r *recRemoter) Stop() *sync.WaitGroup     { return &sync.WaitGroup{} }
+func (r *recRemoter) Send(pid *actor.PID, msg any, _ *actor.PID) {
+	if ev, ok := msg.(esEvent); ok && pid != nil {
+		r.mu.Lock()
+		r.got[[2]string{pid.Address, pid.ID}] = append(r.got[[2]string{pid.Address, pid.ID}], ev)
+		r.mu.Unlock()
+	}
+}
+
 func c12Hist(c *caseCtx) (res caseResult) {
 	r := c.rng
 	wd := watchdog(c.tier)
@@ -92,7 +111,20 @@ func c12Hist(c *caseCtx) (res caseResult) {
 	var mon *eventMonitor
 	var err error
 	lateMonitor := c.n%8 >= 4
-	if lateMonitor {
+	// every third case: the engine has a remote, and some subscribers live on other nodes
+	var rr *recRemoter
+	if c.n%3 == 0 {
+		rr = &recRemoter{addr: "127.0.0.1:4000", got: map[[2]string][]esEvent{}}
+		e, err = actor.NewEngine(actor.NewEngineConfig().WithRemote(rr))
+		if err == nil && !lateMonitor {
+			mon = &eventMonitor{}
+			e.Subscribe(e.Spawn(func() actor.Receiver { return mon }, "verifmonitor", actor.WithID("0")))
+			if !mon.flush(e, wd) {
+				res.inconclusive("monitor subscription not confirmed")
+				return
+			}
+		}
+	} else if lateMonitor {
 		e, err = actor.NewEngine(actor.NewEngineConfig())
 	} else {
 		e, mon, _, err = newMonitoredEngine()
@@ -101,15 +133,32 @@ func c12Hist(c *caseCtx) (res caseResult) {
 		res.inconclusive("engine: %v", err)
 		return
 	}
-	nA := 1 + r.Intn(6)
-	subs := make([]*esSub, nA)
-	pids := make([][]*actor.PID, nA) // several PID objects per actor
+	nL := 1 + r.Intn(6)
+	subs := make([]*esSub, nL)
+	pids := make([][]*actor.PID, nL) // several PID objects per actor
 	for i := range subs {
 		s := &esSub{}
 		subs[i] = s
 		p := e.Spawn(func() actor.Receiver { return s }, "sub", actor.WithID(fmt.Sprint(i)))
 		pids[i] = []*actor.PID{p, actor.NewPID(p.Address, p.ID), p.CloneVT()}
 	}
+	// subscribers on other nodes: the same id as a local subscriber under another address, and pairs whose
+	// address and id differ only in where the one ends and the other begins
+	if rr != nil {
+		foreign := [][2]string{
+			{"127.0.0.1:400", "0sub/0"}, // "127.0.0.1:400"+"0sub/0" reads like the local "127.0.0.1:4000"+"sub/0"
+			{"10.0.0.7:5000", "sub/0"},  // same id as a local subscriber
+			{"10.0.0.7:500", "0sub/0"},  // ... and its look-alike
+			{"10.0.0.7:5000", "sub/1"},
+			{"10.0.0.8:5000", "sub/1"},
+		}
+		r.Shuffle(len(foreign), func(i, j int) { foreign[i], foreign[j] = foreign[j], foreign[i] })
+		for _, f := range foreign[:1+r.Intn(len(foreign))] {
+			p := actor.NewPID(f[0], f[1])
+			pids = append(pids, []*actor.PID{p, actor.NewPID(f[0], f[1]), p.CloneVT()})
+		}
+	}
+	nA := len(pids)
 	nOps := 5 + r.Intn(56)
 	subscribed := make([]bool, nA)
 	expect := make([][]int, nA)
@@ -147,7 +196,7 @@ func c12Hist(c *caseCtx) (res caseResult) {
 			ops = append(ops, fmt.Sprintf("Bcast(%d)", evN))
 		}
 	}
-	res.Desc = fmt.Sprintf("hist actors=%d ops=%d double-subscribes=%d cross-object-unsubscribes=%d lateMonitor=%v", nA, nOps, dbl, cross, lateMonitor)
+	res.Desc = fmt.Sprintf("hist subscribers=%d (%d on other nodes) ops=%d double-subscribes=%d cross-object-unsubscribes=%d lateMonitor=%v", nA, nA-nL, nOps, dbl, cross, lateMonitor)
 	if lateMonitor {
 		mon = &eventMonitor{}
 		mp := e.Spawn(func() actor.Receiver { return mon }, "verifmonitor", actor.WithID("late"))
@@ -158,7 +207,7 @@ func c12Hist(c *caseCtx) (res caseResult) {
 		res.inconclusive("marker did not come back")
 		return
 	}
-	for i, p := range pids {
+	for i, p := range pids[:nL] {
 		f := esFlush{ch: make(chan struct{})}
 		e.Send(p[0], f)
 		select {
@@ -168,14 +217,23 @@ func c12Hist(c *caseCtx) (res caseResult) {
 			return
 		}
 	}
-	for i := range subs {
-		got := subs[i].snapshot()
+	for i := range pids {
+		var got []esEvent
+		name := fmt.Sprintf("a%d", i)
+		if i < nL {
+			got = subs[i].snapshot()
+		} else {
+			rr.mu.Lock()
+			got = append(got, rr.got[[2]string{pids[i][0].Address, pids[i][0].ID}]...)
+			rr.mu.Unlock()
+			name = fmt.Sprintf("a%d (on another node: %s/%s)", i, pids[i][0].Address, pids[i][0].ID)
+		}
 		var g []int
 		for _, ev := range got {
 			g = append(g, ev.N)
 		}
 		if fmt.Sprint(g) != fmt.Sprint(expect[i]) {
-			res.violate("subscriber a%d received events %v, the set-semantics model expects %v", i, trimInts(g), trimInts(expect[i]))
+			res.violate("subscriber %s received events %v, the set-semantics model expects %v", name, trimInts(g), trimInts(expect[i]))
 		}
 	}
 	res.count("history_ops", int64(nOps))
@@ -186,7 +244,7 @@ func c12Hist(c *caseCtx) (res caseResult) {
 		for _, o := range ops {
 			shape = append(shape, o[0])
 		}
-		res.Sig = sigHash("hist", nA, string(shape), dbl, cross)
+		res.Sig = sigHash("hist", nA, nA-nL, string(shape), dbl, cross)
 	}
 	if c.n < 4 || res.Verdict == vViolated {
 		res.Sample = map[string]any{"scenario": res.Desc, "ops": ops}
